@@ -153,7 +153,7 @@ def handle (op : String) (j : Json) : Except String Json := do
     let pi : PipeInst := { name, groups, success, failure, parseInput, contextArgs := argsIn }
     let s0 : St := { ctx := dictIn.getD [], rnd }
     let (s1, r) := runRoot fuel ⟨pipes⟩ pi s0
-    if hasOutOfDomain s1 r then throw "out of domain"
+    if s1.ood || hasOutOfDomain s1 r then throw "out of domain"
     pure (Json.mkObj [("trace", Json.arr (s1.trace.map eventToJson).toArray),
       ("sleeps", Json.arr (s1.sleeps.map Val.toJson).toArray),
       ("outcome", resToJson r), ("ctx", Ctx.toJson s1.ctx),
